@@ -211,6 +211,32 @@ def structural(run: Run):
                               group="samples.request:required-message-fields"))
 
 
+def method_name_agreement(run: Run):
+    """The sample must call the method under the name the client defines: Method.client_method_name (snake-cased by the client templates)."""
+    m = SchemaModel()
+    import keyword
+    m.globals["keyword.kwlist"] = pyv(tuple(keyword.kwlist))
+    m.globals["keyword"] = pyv(("module", "keyword"))
+    m.add_contract(Contract("make_private", params={"name": "Str"}, result="Str", kind="assumed", ensures=["result == '_' + name"], note="utils.make_private: one leading underscore"))
+    from vf.model import FuncV
+    m.globals["make_private"] = pyv(FuncV("contract", "make_private", recv=None))
+    c = Contract("Method.client_method_name", source=(W, "Method.client_method_name"), params={"self": "Method"}, result="Str",
+                 ensures=["result == ('_' if self.is_internal else '') + self.method_pb.name + ('_' if self.method_pb.name.lower() in keyword.kwlist else '')"])
+    m.add_contract(c)
+    try:
+        run.verify(m, c)
+    except Exception as e:      # noqa
+        run.unsupported.append(f"Method.client_method_name: {e!r}"[:200])
+    env = J.make_env()
+    src = J.template_source(env, FR)
+    mac = src[src.index("{% macro render_method_name(sample) %}"):]
+    mac = mac[:mac.index("{% endmacro %}")]
+    appends_underscore = "kwlist" in mac or "keyword" in mac or "client_method_name" in mac
+    run.results.append(Result("samples.call:method-name-is-the-client's-method-name", "discharged" if appends_underscore else "open", "jinja-ast", 0, "structural",
+                              detail="render_method_name renders sample.rpc|snake_case (with `_` prefix when internal); the client defines client_method_name|snake_case, which "
+                                     "carries a trailing underscore when the rpc name is a Python keyword", group="samples.call:method-name"))
+
+
 _C = {}
 
 
@@ -229,6 +255,7 @@ def run(run: Run):
     run.witness_check = witness_still_fails
     stage1(run)
     structural(run)
+    method_name_agreement(run)
     calling_forms(run)
     request_setup_lines(run)
     run.native_standin("props.C14_native", "scenarios",
